@@ -307,7 +307,8 @@ func addrPattern(a []bool) string {
 
 // genCase draws the existing list and a write of the given shape.
 func genCase(t *rapid.T, f *gen.Func, shape string) ([]reflect.Value, refmodel.Update) {
-	o := gen.Opt{Dense: true, MixedIDs: true}
+	// (the elements of a full write come in any order, and so does the list the application stored)
+	o := gen.Opt{Dense: true, MixedIDs: true, UnsortedFull: true}
 	var init []reflect.Value
 	n := rapid.IntRange(1, 4).Draw(t, "n")
 	seen := map[uint64]bool{}
@@ -326,6 +327,10 @@ func genCase(t *rapid.T, f *gen.Func, shape string) ([]reflect.Value, refmodel.U
 		b, _ := gen.KeyOf(f, init[j])
 		return a < b
 	})
+	if len(init) > 1 && rapid.IntRange(0, 3).Draw(t, "storedUnsorted") == 0 {
+		r := rapid.IntRange(1, len(init)-1).Draw(t, "rotation")
+		init = append(append([]reflect.Value{}, init[r:]...), init[:r]...)
+	}
 	u := listgen.Update(t, f, init, shape, o, "w")
 	// the written items may or may not carry a (different) flag value
 	for i, it := range u.Items {
